@@ -8,6 +8,33 @@ TICKS = 90000
 PTS_MAX = 1 << 33
 
 
+# bytes a stream path / a token can carry: the token is a percent-decoded query value, the path a decoded URL path
+WILD = [b"%", b"%s", b"%d", b"%%", b"%!", b"%v", b"%e", b"%.3f", b"%0", b"%!s(MISSING)", b"#", b"?", b"&", b"=", b" ",
+        b"?token=", b"\xc3\xa9", b"\xff", b"\x00", b"\t", b"\r", b"/", b"a", b"Z9", b"tok", b"%25", b"+"]
+
+
+def wild_bytes(rng, lo=1, hi=6):
+    return b"".join(rng.choice(WILD) for _ in range(rng.randint(lo, hi)))
+
+
+def gen_token(rng):
+    r = rng.random()
+    if r < 0.25:
+        return b""
+    if r < 0.45:
+        return rng.choice([b"tk", b"a1b2c3", b"tokA"])
+    if r < 0.93:
+        return wild_bytes(rng)
+    return wild_bytes(rng, 300, 1500)           # very long
+
+
+def gen_path(rng):
+    r = rng.random()
+    if r < 0.45:
+        return rng.choice([b"/live/a", b"/cam1", b"/a/b/c", b"/x"])
+    return b"/" + rng.choice([b"live/", b"", b"a"]) + wild_bytes(rng, 1, 4).replace(b"\r", b"")
+
+
 def payload(rng, kind, big=False):
     first = {0: rng.randrange(256), 1: 0x65, 2: 0x41}[kind]
     n = rng.choice([1, 2, 3, 5, 8, 13]) if not big else rng.choice([150, 180, 190, 400, 700])
@@ -20,7 +47,7 @@ def gen_cfg(rng, frag=None, mem=None):
     rate = rng.choice([44100, 44100, 48000, 22050, 8000, 96000])
     if mem is None:
         mem = rng.random() < 0.6
-    path = rng.choice(["/live/a", "/cam1", "/a/b/c", "/x"])
+    path = gen_path(rng)
     sps = rng.choice([b"\x67\x42\x00\x1e", b"\x67\x01", b""])
     pps = rng.choice([b"\x68\xce\x38\x80", b"\x68", b""])
     return [frag, rate, mem, True, path, sps, pps]
@@ -86,7 +113,7 @@ def gen_frames(rng, cfg, nframes):
 
 def gen_case(rng, nframes, frag=None, mem=None):
     cfg = gen_cfg(rng, frag, mem)
-    dtok = rng.choice(["", "", "tk", "a1b2c3"])
+    dtok = gen_token(rng)
     frames = gen_frames(rng, cfg, nframes)
     ops = []
     nread = npl = 0
@@ -102,7 +129,7 @@ def gen_case(rng, nframes, frag=None, mem=None):
         elif r < 0.10 and nread:
             ops.append([2, rng.randrange(-1, nread + 1)])
         elif r < 0.13:
-            ops.append([3, rng.choice(["", "t", "tokA", "tokBBBB", "x" * 9])])
+            ops.append([3, gen_token(rng)])
             npl += 1
         elif r < 0.16 and npl:
             ops.append([4, rng.randrange(-1, npl + 1)])
@@ -158,7 +185,7 @@ def boundary_case(rng, mem):
             ops[-1][3] = ops[-1][2]
         t = t + d + rng.choice([1, 3600])
     ops.append([0, 1, t, t, payload(rng, 1)])
-    return [cfg, rng.choice(["", "b"]), ops]
+    return [cfg, gen_token(rng), ops]
 
 
 def jitter_case(rng, mem):
@@ -320,7 +347,7 @@ def generations_case(rng, mem):
             if rng.random() < 0.3:
                 ops.append([5])
             ops.append([7, leftovers(rng)])
-    return [cfg, rng.choice(["", "g"]), ops]
+    return [cfg, gen_token(rng), ops]
 
 
 def rollover_case(rng, mem, frag, extra):
@@ -357,7 +384,7 @@ def rollover_case(rng, mem, frag, extra):
     ops.append([5])
     ops.append([2, 0])
     ops.append([4, 0])
-    return [cfg, rng.choice(["", "dt"]), ops]
+    return [cfg, gen_token(rng), ops]
 
 
 def long_gop_witness(mem):
@@ -457,7 +484,8 @@ def run(ck):
              "and jumping audio timestamps, key frames on the duration boundary +-1 tick, PTS origin 0 / at the fragment boundary / near 2^33, "
              "empty and multi-packet payloads, dts != pts; the stream's SPS/PPS assigned to the VideoMeta after the packetizer was built, as an "
              "operation before the first frame / after some frames / between key frames / changing later) pushed through the real H.264/AAC TS packetizers into hls.SegmentGenerator in "
-             "memory and disk mode, interleaved with Segment fetches (readers kept and read later), M3u8 calls with other tokens (slices kept "
+             "memory and disk mode, stream paths and tokens over all bytes a URL can deliver ('%', printf verbs, '#', '?', '&', '=', '?token=', blanks, NUL, "
+             "non-ASCII, tokens of up to ~10 KB; no line feed), interleaved with Segment fetches (readers kept and read later), M3u8 calls with other tokens (slices kept "
              "and re-read) and Close; after every operation playlist text + parsed view, resolvable numbers, files on disk and the demultiplexed "
              "(and re-multiplexed, byte-compared) content of each newly listed segment are compared with the extracted model and judged by the "
              "oracle of C10_model_passes; non-trivial = at least 8 frames spanning >= 4 fragments with >= 4 key frames or audio; plus the explicit "
